@@ -2,7 +2,13 @@
 virtual packages compiled with it; 'level' is the evidence level; 'budget' an optional per-tier time
 budget handed to the engine (enumeration stops with exhaustive:false, exit 0)."""
 
+VS = {"engine": "valuespace", "needs": ["hz", "enum", "valuespace"], "level": "exploration",
+      "gen": {"quick": ["mx"], "thorough": ["mx", "mxall"]}}
+
 PROPS = {
+    "C01": dict(VS),
+    "C02": dict(VS),
+    "C04": dict(VS),
     "C15": {"engine": "small", "needs": ["hz", "small"], "level": "exploration"},
     "C17": {"engine": "small", "needs": ["hz", "small"], "level": "exploration"},
 }
